@@ -477,6 +477,10 @@ class C18(Check):
                         plans.append([[k, ["torn", frac]]])
                     plans.append([[k, ["short", 0.5]],
                                   [k + 1, ["errno", "ENOSPC"]]])
+                    # a short write on its own is legal and benign: whoever
+                    # issued the write has to continue it
+                    plans.append([[k, ["short", 0.5]]])
+                    plans.append([[k, ["short", 1]]])
         elif isinstance(faults, dict):
             import random
             rng = random.Random(faults["seed"])
